@@ -70,6 +70,9 @@ func corpusGraph() []*modSpec {
 			Files: append([]modFile{{"models.go", src}}, extra...)}
 	}
 	return []*modSpec{
+		mk("graph-generic-named-containers", "package models\n\nimport \"example.com/org/models/lib\"\n\ntype S struct {\n\tA List[int]\n\tB List[string]\n\tC Dict[bool]\n\tD Pair[int]\n\tE lib.List[int]\n\tF lib.Dict[string]\n\tG []List[int]\n}\n",
+			modFile{"other.go", "package models\n\ntype List[T any] []T\n\ntype Dict[V any] map[string]V\n\ntype Pair[T any] [2]T\n"},
+			modFile{"lib/lib.go", "package lib\n\ntype List[T any] []T\n\ntype Dict[V any] map[string]V\n"}),
 		mk("graph-self-recursive", "package models\n\ntype Tree struct {\n\tChildren []Tree\n\tByName map[string]Tree\n\tPair [2]*Tree\n}\n"),
 		mk("graph-mutual", "package models\n\ntype A struct{ Bs []B }\ntype B struct{ As map[int]A; Self []B }\n"),
 		mk("graph-recursive-containers", "package models\n\ntype Tree map[string]Tree\ntype MA map[string]MB\ntype MB map[int]MA\ntype Nest []Nest\ntype Deep map[string][]Deep\ntype Grid [2]Cells\ntype Cells []Grid\n\ntype S struct {\n\tT Tree\n\tA MA\n\tN Nest\n\tD Deep\n\tG Grid\n}\n"),
